@@ -25,6 +25,7 @@ pub struct Stats {
     pub findings: Vec<Finding>,
     /// findings that belong to another property (the history was abandoned there)
     pub foreign: BTreeMap<String, u64>,
+    pub foreign_detail: BTreeMap<String, String>,
     pub inconclusive: Vec<String>,
 }
 
@@ -58,6 +59,9 @@ impl Stats {
         for (k, v) in o.foreign {
             *self.foreign.entry(k).or_insert(0) += v;
         }
+        for (k, v) in o.foreign_detail {
+            self.foreign_detail.entry(k).or_insert(v);
+        }
         self.inconclusive.extend(o.inconclusive);
     }
 
@@ -78,6 +82,7 @@ impl Stats {
             "states": self.states.len(),
             "samples": self.samples,
             "foreign_findings": self.foreign,
+            "foreign_detail": self.foreign_detail,
             "inconclusive": self.inconclusive,
             "findings": by_sig.iter().map(|(sig, (n, f))| json!({
                 "property": f.prop,
